@@ -446,9 +446,9 @@ func main() {
 			env.Add(fmt.Sprintf("PinCase %d %s", 20+i, obs), fmt.Sprintf("[route %d] %s => %v", route, src, o.Val), "pinned-accessor-receiver", true)
 		}
 	}
-	// pinned probes of the arguments object of a function whose parameter list repeats a name (finding class 4,
-	// C01-arguments-dup-param: otto aliases arguments[i] to the parameter also for an EARLIER occurrence of the name;
-	// 10.6 step 11.c maps each name once, to its last occurrence that received an argument); 33 and 34 are controls
+	// pinned probes of the arguments object of a function whose parameter list repeats a name (regression cases of the
+	// fixed finding C01-arguments-dup-param, bf94f2a: 10.6 step 11.c maps each name once, to its last occurrence that
+	// received an argument, an earlier occurrence is a plain property); 33 and 34 are controls
 	for i, src := range []string{
 		`function pick(a, b, a) { return arguments[0]; } [pick(1, 2, 3)].join()`,
 		`function pick(a, a) { return arguments[0]; } [pick(1, 2)].join()`,
